@@ -125,7 +125,7 @@ def record(sc):
     cl = ScheduledClient(script=sc.get("script"), seed=sc.get("sched_seed", 0), p_ready=sc.get("p_ready", 0.5),
                          p_run=sc.get("p_run", 0.5), cores=sc.get("cores", 2))
     try:
-        with time_limit(30):
+        with time_limit(180):
             res, end = run_sampler(sc, cl)
         dg = sample_digest(res, sc["kind"].startswith("smc"))
         events = cl.events
